@@ -1,15 +1,18 @@
 import os, json, subprocess, glob
 META = dict(
-    engine='rt',
+    engine='rt+cosched',
     technique='bounded-exhaustive DTD program family x configuration box on the real runtime against a sequential reference model; '
-              'one-stream leg: stateless DFS over every {insert next task | execute ready task T} interleaving through a harness-owned scheduler',
+              'one-stream leg: stateless DFS over every {insert next task | execute ready task T} interleaving through a harness-owned scheduler; '
+              'instruction-level leg: preemption-bounded exhaustive schedule enumeration (cosched) of the real insertion path against the real completion path on 2 controlled threads',
     level_text='Every DTD program with <= 3 tasks (1-2 data parameters each, modes INPUT/OUTPUT/INOUT) over 2 tiles, canonical under tile renaming, '
                'is inserted into the real runtime (parsec_dtd_insert_task and explicit task classes, window/threshold in {(1,1),(2,1),(4,2),default}, '
                'generator task inserting the tail of the program from a task body at every position) and every body observation and final tile value is '
                'compared with sequential execution in insertion order; on one execution stream every interleaving of insertions with task executions and '
                'every task order chosen by the runtime\'s own select calls is enumerated (all programs <= 2 tasks; 3-task programs per the leg bounds); '
-               '8 scheduler modules are run on a deterministic stride of the family. Thorough: 3 parameters per task, 3-task interleavings for the whole family, 4 tasks over 3 tiles.',
-    level_note='Task bodies and runtime actions are atomic at this level (instruction-level races inside the DTD engine are NOT explored: see NOTES.md, finding F5). '
+               '8 scheduler modules are run on a deterministic stride of the family. Thorough: 3 parameters per task, 3-task interleavings for the whole family, 4 tasks over 3 tiles. '
+               'Instruction-level legs (il-*, executable of harness/C04/c04_il.c with the value oracle): every schedule with <= 1 preemption (thorough: 2) of an inserting thread against a worker thread for every program '
+               '<= 2 tasks with one parameter per task, and <= 2 preemptions for (R a ; W a).',
+    level_note='Task bodies and runtime actions are atomic in the rt legs; instruction-level races inside the DTD engine are explored only by the il legs within their bounds (2 threads, preemption bound 1-2, programs <= 2 tasks, see harness/C04/NOTES.md); they reproduce finding F5, attributed to C04-reader-chain-end-published-before-retain only if known_findings.json lists it. '
                'Main legs run with task-object recycling suppressed by the driver and without tasks naming a tile twice, because both trip genuine defects of the tree '
                '(findings C03-stale-last-user-aba, C03-dup-tile-reader-count, reproduced by dedicated legs); schedulers ip/llp (and ll on one thread, documented) '
                'livelock on the writer-retry path and are reproduced separately (C03-sched-distance-livelock). The multi-thread leg (mt) serialises every insertion against task '
@@ -20,11 +23,12 @@ RULE = ("states = distinct (canonical program) cases per leg; executions = compl
         "order or on more than one thread (inproc) / when its choice list deviates from the default (gate); outcomes = distinct (program, configuration, "
         "execution order, thread placement[, interleaving trace]) signatures")
 ASSUME = ["task bodies touch only the data they declare; the driver waits with parsec_taskpool_wait before reading results and flushes every tile (documented DTD usage)",
-          "task-level atomicity: races at instruction granularity inside insert/complete are outside this check",
+          "rt legs: task-level atomicity; races at instruction granularity inside insert/complete are explored only by the il legs (bounds in their names)",
           "multi-thread leg: the main thread inserts only while no other stream holds a task (wrapped scheduler module, Dekker handshake); default window only",
           "driver keeps completed task objects out of the class free lists while a taskpool lives (--norecycle): hides finding C03-stale-last-user-aba from the main legs",
           "no task names the same tile twice in the main legs (finding C03-dup-tile-reader-count is reproduced by its own leg)",
-          "hash table sizes of the DTD engine reduced to 64 buckets (dtd_task_hash_size, dtd_tile_hash_size) for speed"]
+          "hash table sizes of the DTD engine reduced to 64 buckets (dtd_task_hash_size, dtd_tile_hash_size) for speed",
+          "il legs: see the assumptions of the C04 check (sequential consistency at instrumented accesses, lock-based reduction, harness queue, spin loops turned into waits)"]
 CFLAGS = ['-I/repo/parsec', '-I/verif/engine/rt']
 HERE = os.path.dirname(os.path.abspath(__file__))
 
@@ -66,6 +70,28 @@ def run_findings(ctx, exe):
         else:
             ctx.notes.append('finding %s did not reproduce' % fid)
 
+# ---- instruction-level leg (E4 leg 4): the executable of harness/C04/c04_il.c with the C03 value oracle
+def build_il(ctx):
+    return ctx.compile('hk-shm', 'il', ['c03_il.c'], engine='cosched', cflags=CFLAGS, ldflags=['-ldl'])
+
+def c04_check():
+    import importlib.util
+    spec = importlib.util.spec_from_file_location('check_C04_for_il', os.path.join(os.path.dirname(HERE), 'C04', 'check.py'))
+    m = importlib.util.module_from_spec(spec); spec.loader.exec_module(m)
+    return m
+
+def il_legs(ctx, only):
+    c4 = c04_check()
+    exe = build_il(ctx)
+    if os.environ.get('VERIF_KNOWN_FINDINGS'):
+        ctx.notes.append('il legs: known findings read from %s (VERIF_KNOWN_FINDINGS), ids used: %s' % (os.environ['VERIF_KNOWN_FINDINGS'], ','.join(c4.il_known_ids())))
+    if ctx.tier == 'quick':
+        c4.il_leg(ctx, exe, 'il-le2p1-b1', ['--nt', '1:2', '--maxp', '1'], 1, 120, only=only)
+        c4.il_leg(ctx, exe, 'il-f5', ['--prog', 'Ra_Wa'], 2, 75, only=only)
+    else:
+        c4.il_leg(ctx, exe, 'il-le2p1-b2', ['--nt', '1:2', '--maxp', '1'], 2, 240, jobs=12, only=only)
+        c4.il_leg(ctx, exe, 'il-le2p2-b1', ['--nt', '1:2', '--maxp', '2', '--stride', '3'], 1, 180, jobs=12, only=only)
+
 def check(ctx):
     exe = build(ctx)
     q = ctx.tier == 'quick'
@@ -98,10 +124,13 @@ def check(ctx):
         leg('mt-4t-scheds', ['--leg', 'mt', '--threads', '4', '--nt', '1:3', '--maxp', '2', '--win', '0,0', '--api', '1', '--spin', '500', '--stride', '24', '--allscheds', '1', '--exclude', 'll,llp,ip'], 300)
         leg('recycle-on', ['--leg', 'gate', '--nt', '1:2', '--maxp', '2', '--win', '1,1;2,1;0,0', '--jobs', '12', '--isolate', '1', '--norecycle', '0', '--dup', '0'], 240)
         leg('dup', ['--leg', 'gate', '--nt', '1:2', '--maxp', '2', '--win', '0,0;1,1', '--jobs', '12', '--isolate', '1', '--norecycle', '1', '--dup', '2', '--hang', '8'], 600)
+    il_legs(ctx, only)
     if not os.environ.get('C03_SKIP_FINDINGS'):
         run_findings(ctx, exe)
     return ctx.finish(RULE, ASSUME)
 
 def replay(ctx, path, obj):
+    if obj.get('engine') == 'cosched':
+        return c04_check().replay_il(ctx, build_il(ctx), path)
     exe = build(ctx)
     return subprocess.call([exe, '--replay', path, '--outdir', '/verif/out'])
